@@ -24,6 +24,9 @@ SOURCES = {
     "ldn": (lambda d: "%d" % d.ldn, ["-i", "ldn"]),
     "mdn": (lambda d: "%d" % d.mdn, ["-i", "mdn"]),
     "jdn": (lambda d: "%.1f" % (d.o + cal.JDN_OFF), ["-i", "jdn"]),
+    # year + week count + weekday in the two non-ISO week conventions
+    "yUu": (lambda d: "%04d-%02d-%d" % (d.y, d.wk_U, d.iwd), ["-i", "%Y-%U-%u"]),
+    "yWu": (lambda d: "%04d-%02d-%d" % (d.y, d.wk_W, d.iwd), ["-i", "%Y-%W-%u"]),
     # @N is only recognised as a command-line argument (the stream scanner
     # greps for digits and would drop the sign)
     "epoch": (lambda d: "@%d" % d.unix, "ARGS"),
@@ -155,9 +158,13 @@ def main(tier, seed):
         if src == "ymd":
             continue
         for tgt in ["big"] + NAMED:
+            days = other
             if tier == "quick" and tgt in ("ldn", "jdn", "mdn") and src not in ("ywd", "ymcw"):
-                continue
-            for ch in chunks(other, 40000):
+                # day-number targets from the remaining sources: the first and last two years of the domain,
+                # the years around the epochs of the day counts, and a slice of the rest
+                days = [o for o in other if cal.Day(o).y in (1601, 1602, 1752, 1753, 1858, 1899, 1900, 1917, 1970, 2000, 4094, 4095)] + other[::40]
+                days = sorted(set(days))
+            for ch in chunks(days, 40000):
                 tasks.append((bindir, src, tgt, ch, "C01"))
     # largest first for balance
     tasks.sort(key=lambda t: -len(t[3]))
